@@ -90,20 +90,23 @@ def oracle_mesh_independence(R, tier, seed):
             for (nx, ny) in grids:
                 mesh = generate_mesh({"num_y": ny, "num_x": nx, "wing_type": "rect", "symmetry": sym, "span": span, "root_chord": chord,
                                       "span_cos_spacing": float(rng.choice([0.0, 0.5, 1.0])), "chord_cos_spacing": float(rng.choice([0.0, 1.0]))})
-                s = aero.aero_surface(mesh, symmetry=sym, with_viscous=True, with_wave=True, k_lam=k_lam, t_over_c_cp=np.array([0.1]))
+                # a user-supplied lift offset CL0 is part of the lift the Korn equation must see (reported CL = CL1 + CL0); it does
+                # not enter the viscous drag
+                cl0 = float(rng.choice([0.0, 0.15, 0.3]))
+                s = aero.aero_surface(mesh, symmetry=sym, with_viscous=True, with_wave=True, k_lam=k_lam, t_over_c_cp=np.array([0.1]), CL0=cl0)
                 p = aero.run(aero.build_aero([s], alpha=alpha, Mach=0.84, geom=True))
                 cdv = float(aero.g(p, "aero.wing_perf.CDv")[0]); cdw = float(aero.g(p, "aero.wing_perf.CDw")[0]); cl = float(aero.g(p, "aero.wing_perf.CL")[0])
                 # CDw depends on CL, which (slightly) depends on the mesh: compare CDw at the same CL via the component's formula
                 mcrit = 0.95 - 0.1 - cl / 10 - (0.1 / 80.0) ** (1.0 / 3.0)
                 cdw_ref = 20 * max(0.84 - mcrit, 0.0) ** 4
                 O["cases"] += 1
-                desc = {"sym": sym, "k_lam": k_lam, "nx": nx, "ny": ny, "span": span, "chord": chord, "seed": seed}
+                desc = {"sym": sym, "k_lam": k_lam, "nx": nx, "ny": ny, "span": span, "chord": chord, "CL0": cl0, "seed": seed}
                 bad = {}
                 if ref is None: ref = cdv
                 if abs(cdv - ref) > 1e-10 * ref: bad["CDv-mesh-dependent"] = [cdv, ref]
                 fac = cdw / cdw_ref if cdw_ref > 0 else 1.0
                 # the coefficient may carry the listed symmetric factor 2 (C04 finding); anything else is a mesh dependence
-                if cdw_ref > 1e-9 and not (abs(fac - 1.0) < 1e-8 or (sym and abs(fac - 2.0) < 1e-8)): bad["CDw-mesh-dependent"] = [cdw, cdw_ref]
+                if cdw_ref > 1e-9 and not (abs(fac - 1.0) < 1e-8 or (sym and abs(fac - 2.0) < 1e-8)): bad["CDw-differs-from-Korn-estimate-at-the-reported-CL"] = [cdw, cdw_ref]
                 if bad: _fail(O, "C18:AeroPoint:" + sorted(bad)[0], desc, errors=bad)
                 else: O["ok"] += 1
                 R.mark("c18m", sym, k_lam, nx, ny)
